@@ -81,12 +81,14 @@ pub fn parse_action(s: &str) -> Option<Action> {
         "Drop" => Action::Drop(n(0)?, n(1)?),
         "Propose" => Action::Propose(n(0)?, n(1)?),
         "ProposeCc" => Action::ProposeCc(n(0)?, n(1)?),
+        "ProposeMix" => Action::ProposeMix(n(0)?, n(1)?),
         "ReadIndex" => Action::ReadIndex(n(0)?),
         "Transfer" => Action::Transfer(n(0)?, n(1)?),
         "Campaign" => Action::Campaign(n(0)?),
         "Ready" => Action::Ready(n(0)?, cut(1)?),
         "ReadyAsync" => Action::ReadyAsync(n(0)?),
         "Persist" => Action::Persist(n(0)?, n(1)?),
+        "Fsync" => Action::Fsync(n(0)?, n(1)?),
         "ApplyNext" => Action::ApplyNext(n(0)?),
         "Crash" => Action::Crash(n(0)?, n(1)?),
         "Restart" => Action::Restart(n(0)?),
